@@ -35,14 +35,40 @@ theorem take_drop_self {α : Type} (l : List α) (k : Nat) : (l.drop k).take (l.
 
 /-! ### the VM operations on a value that has a sequence view -/
 
-theorem strBounds_plain (bs : List Nat) (i j : Nat) : plain (strBounds bs i j) = true := by
-  unfold strBounds; split <;> rfl
+theorem noCont_take_drop (bs : List Nat) (i k : Nat) (h : noCont bs = true) :
+    noCont ((bs.drop i).take k) = true := by
+  simp only [noCont, List.all_eq_true] at *
+  intro b hb
+  exact h b (List.mem_of_mem_drop (List.mem_of_mem_take hb))
 
-theorem plainL_map_str (bs : List Nat) (l : List Nat) :
+theorem strBounds_plain (bs : List Nat) (i j : Nat) (h : noCont bs = true) :
+    plain (strBounds bs i j) = true := by
+  unfold strBounds; split
+  · simpa [plain] using noCont_take_drop bs i (j - i) h
+  · rfl
+
+theorem plainL_map_str (bs : List Nat) (l : List Nat) (h : noCont bs = true) :
     plainL (l.map (fun i => strBounds bs i (i + 1))) = true := by
   induction l with
   | nil => rfl
-  | cons a t ih => simp [plainL, ih, strBounds_plain]
+  | cons a t ih => simp [plainL, ih, strBounds_plain _ _ _ h]
+
+theorem boundary_of_noCont (bs : List Nat) (i : Nat) (h : noCont bs = true) (hi : i ≤ bs.length) :
+    boundary bs i = true := by
+  unfold boundary
+  by_cases he : i = bs.length
+  · simp [he]
+  · have hlt : i < bs.length := by omega
+    simp only [noCont, List.all_eq_true] at h
+    have := h bs[i] (List.getElem_mem hlt)
+    simp [List.getElem?_eq_getElem hlt, this]
+
+/-- on a string without continuation bytes every cut inside the string is valid -/
+theorem strCut_ok (bs : List Nat) (i j : Nat) (h : noCont bs = true) (hij : i ≤ j) (hj : j ≤ bs.length) :
+    strCut bs i j = .ok (strBounds bs i j) := by
+  have hb : strBounds bs i j = .str ((bs.drop i).take (j - i)) := by
+    simp [strBounds, hij, hj, boundary_of_noCont bs i h (by omega), boundary_of_noCont bs j h hj]
+  simp [strCut, hb]
 
 theorem plainL_map_pair (es : List (Val × Val)) (h : plainM es = true) :
     plainL (es.map pairOf) = true := by
@@ -58,7 +84,7 @@ theorem view_plain {v : Val} {xs sl} (h : view v = some (xs, sl)) (hr : plain v 
   cases v with
   | tuple ys => simp [view] at h; obtain ⟨rfl, _⟩ := h; simpa [plain] using hr
   | list ys => simp [view] at h; obtain ⟨rfl, _⟩ := h; simpa [plain] using hr
-  | str bs => simp [view] at h; obtain ⟨rfl, _⟩ := h; exact plainL_map_str _ _
+  | str bs => simp [view] at h; obtain ⟨hnc, rfl, _⟩ := h; exact plainL_map_str _ _ hnc
   | map es => simp [view] at h; obtain ⟨rfl, _⟩ := h; exact plainL_map_pair _ (by simpa [plain] using hr)
   | _ => simp [view] at h
 
@@ -85,7 +111,7 @@ theorem view_size {v : Val} {xs sl} (h : view v = some (xs, sl)) : vmSize v = so
   cases v with
   | tuple ys => simp [view] at h; obtain ⟨rfl, _⟩ := h; rfl
   | list ys => simp [view] at h; obtain ⟨rfl, _⟩ := h; rfl
-  | str bs => simp [view] at h; obtain ⟨rfl, _⟩ := h; simp [vmSize]
+  | str bs => simp [view] at h; obtain ⟨_, rfl, _⟩ := h; simp [vmSize]
   | map es => simp [view] at h; obtain ⟨rfl, _⟩ := h; simp [vmSize]
   | _ => simp [view] at h
 
@@ -94,7 +120,10 @@ theorem view_index {v : Val} {xs sl} (h : view v = some (xs, sl)) (j : Nat) (hj 
   cases v with
   | tuple ys => simp [view] at h; obtain ⟨rfl, _⟩ := h; simp [tempIndex, sidx_nat, hj]
   | list ys => simp [view] at h; obtain ⟨rfl, _⟩ := h; simp [tempIndex, sidx_nat, hj]
-  | str bs => simp [view] at h; obtain ⟨rfl, _⟩ := h; simp [tempIndex, sidx_nat]
+  | str bs =>
+    simp [view] at h; obtain ⟨hnc, rfl, _⟩ := h
+    simp at hj
+    simp [tempIndex, sidx_nat, strCut_ok bs j (j + 1) hnc (by omega) (by omega)]
   | map es =>
     simp [view] at h; obtain ⟨rfl, _⟩ := h
     simp at hj
@@ -113,9 +142,10 @@ theorem view_index_neg {v : Val} {xs sl} (h : view v = some (xs, sl)) (k : Nat) 
     have : ys.length - k < ys.length := by omega
     simp [tempIndex, sidx_neg _ _ hk, Nat.min_eq_left hkl, this]
   | str bs =>
-    simp [view] at h; obtain ⟨rfl, _⟩ := h
+    simp [view] at h; obtain ⟨hnc, rfl, _⟩ := h
     simp at hkl
-    simp [tempIndex, sidx_neg _ _ hk, Nat.min_eq_left hkl]
+    simp [tempIndex, sidx_neg _ _ hk, Nat.min_eq_left hkl,
+      strCut_ok bs (bs.length - k) (bs.length - k + 1) hnc (by omega) (by omega)]
   | map es =>
     simp [view] at h; obtain ⟨rfl, _⟩ := h
     simp at hkl
@@ -133,8 +163,9 @@ theorem view_sliceFrom {v : Val} {xs sl} (h : view v = some (xs, sl)) (k : Nat) 
     simp [view] at h; obtain ⟨rfl, rfl⟩ := h
     simp [sliceFrom, sidx_nat, hk, take_drop_self]
   | str bs =>
-    simp [view] at h; obtain ⟨rfl, rfl⟩ := h
-    simp [sliceFrom, sidx_nat]
+    simp [view] at h; obtain ⟨hnc, rfl, rfl⟩ := h
+    simp at hk
+    simp [sliceFrom, sidx_nat, strCut_ok bs k bs.length hnc hk (by omega)]
   | map es =>
     simp [view] at h; obtain ⟨rfl, rfl⟩ := h
     simp at hk
@@ -151,9 +182,9 @@ theorem view_sliceTo {v : Val} {xs sl} (h : view v = some (xs, sl)) (k : Nat) (h
     simp [view] at h; obtain ⟨rfl, rfl⟩ := h
     simp [sliceTo, sidx_neg _ _ hk0, Nat.min_eq_left hk]
   | str bs =>
-    simp [view] at h; obtain ⟨rfl, rfl⟩ := h
+    simp [view] at h; obtain ⟨hnc, rfl, rfl⟩ := h
     simp at hk
-    simp [sliceTo, sidx_neg _ _ hk0, Nat.min_eq_left hk]
+    simp [sliceTo, sidx_neg _ _ hk0, Nat.min_eq_left hk, strCut_ok bs 0 (bs.length - k) hnc (by omega) (by omega)]
   | map es =>
     simp [view] at h; obtain ⟨rfl, rfl⟩ := h
     simp at hk
